@@ -2,7 +2,7 @@ from checkdef import part
 SPEC = {
     "level": "model_checking",
     "parts": [part("c05_meta", "asan", ["c05_meta.cpp"], timeout={"quick": 1500, "thorough": 7200})],
-    "rule": "17 metadynamics configurations (a hard boundary on one side only with the other side left, grid given by a grid { } block wider than the variables' boundaries in 1-D and 2-D, restart onto a narrower rebinned grid with kept hills, grids on/off, hillWidth vs gaussianSigmas, hill and grid-update frequencies, "
+    "rule": "19 metadynamics configurations (a grid lying 0.4 to 6.6 bins above every value, plain and well-tempered; a hard boundary on one side only with the other side left, grid given by a grid { } block wider than the variables' boundaries in 1-D and 2-D, restart onto a narrower rebinned grid with kept hills, grids on/off, hillWidth vs gaussianSigmas, hill and grid-update frequencies, "
             "keepHills, well-tempered, expandBoundaries, periodic variable, two variables, 3-vector variable without grids) "
             "x ALL value words of length 4 (thorough 5) over {2 bin centres, off-centre, exact edge, just below grid} "
             "(thorough: + far below, above) x {one run, new run in the same process at every K, restart at every K}; after EVERY step energy "
